@@ -19,6 +19,9 @@ def At (d : B) (p : Nat) (bs : B) : Prop := ∃ pre post, d = pre ++ bs ++ post 
 
 theorem At.intro (pre bs post : B) : At (pre ++ bs ++ post) pre.length bs := ⟨pre, post, rfl, rfl⟩
 
+theorem At.intro_rest (pre bs post : B) : At (pre ++ bs ++ post) pre.length (bs ++ post) :=
+  ⟨pre, [], by simp, rfl⟩
+
 theorem At.self (d : B) : At d 0 d := ⟨[], [], by simp, rfl⟩
 
 theorem At.left {d : B} {p : Nat} {a b : B} (h : At d p (a ++ b)) : At d p a := by
